@@ -16,7 +16,7 @@ PROP = "C18"
 MAX_STEPS = 80
 
 RAISES = ("app-error", "app-error-kwargs", "decorated", "defined", "undefined", "picky", "kwonly", "with-kwargs-attr", "app-error-noargs",
-          "on-cancel", "app-error-same-instance", "app-error-carrying-traceback")
+          "on-cancel", "app-error-same-instance", "app-error-carrying-traceback", "app-error-falsy-args")
 
 
 class DefinedError(Exception):
@@ -203,6 +203,9 @@ class World(DuoWorld):
             raise ApplicationError("com.example.carried.%s" % tok, *a, reason="why", n=3)
         if k == "app-error-noargs":
             raise ApplicationError("com.example.defined")
+        if k == "app-error-falsy-args":
+            # arguments that are all "nothing" in a boolean sense are arguments all the same
+            raise ApplicationError("com.example.falsy", 0, "", None, [])
         if k == "app-error-carrying-traceback":
             # an error passed on from further down the line: it already carries a 'traceback' among its keyword arguments
             raise ApplicationError("com.example.relayed", *a, traceback="Traceback (remote)", code=7)
@@ -258,6 +261,8 @@ class World(DuoWorld):
             return "com.example.carried.%s" % rec.tok, a, {"reason": "why", "n": 3}
         if k == "app-error-noargs":
             return "com.example.defined", [], {}
+        if k == "app-error-falsy-args":
+            return "com.example.falsy", [0, "", None, []], {}
         if k == "app-error-carrying-traceback":
             return "com.example.relayed", a, {"code": 7}
         if k == "app-error-same-instance":
